@@ -16,8 +16,8 @@ REGISTRY = {
     'C14': ['coro_mutex', 'guards'],
     'C15': ['shared_mutex', 'coro_mutex', 'guards', 'spinlock'],
     'C16': ['event', 'base_core'],
-    'C17': ['fault_sched', 'sleep_map'],
-    'C18': ['fiber_locks', 'sleep_map', 'tls', 'fault_sched'],
+    'C17': ['fault_sched', 'sleep_map', 'run_loop'],
+    'C18': ['fiber_locks', 'sleep_map', 'tls', 'fault_sched', 'run_loop'],
     'C19': ['atomic'],
     'C20': ['alloc'],
 }
@@ -235,7 +235,8 @@ CLAIMS = {
                 'of PollRandomElementFromList and TickTime are each run on two copies of the declared decision state S (seed, engine position, random count, injector '
                 'count / pause, the configuration values, virtual time) with clocks, random_device, addresses and thread ids independent, and must take the same '
                 'decision and reach the same S. Functional contracts: engine invariant (random count == draws since seeding), SetSeed re-creates position 0, '
-                'GetRandCount, the restore lemma ForwardToRandCount (loop invariant, any n), Get/SetState, ShouldFailAtomicWeak, TickTime, AdvanceTime.',
+                'GetRandCount, the restore lemma ForwardToRandCount (loop invariant, any n), Get/SetState, ShouldFailAtomicWeak, TickTime, AdvanceTime. '
+                'Unit run_loop: Scheduler::RunLoop (loop invariant: every resumption is exactly one wake-up pass, one seeded pick, one tick, in this order; ends only with nobody runnable and nobody asleep), GetNext (one seeded draw), Schedule (no re-entry), RescheduleCurrent (queued before suspended).',
         'note': 'mt19937_64 is an opaque deterministic stream (uninterpreted function of seed and position), % is an uninterpreted function with its bound; std::map '
                 'ordering and context switching trusted; BiList::GetElement is checked bounded on real memory (N<=6/9); RunLoop / WakeUpNeeded / Sleep (std::map) '
                 'are not under contract. Replay: FIBER build of the tree under check.',
@@ -247,7 +248,7 @@ CLAIMS = {
                 '(lock, try_lock, unlock, LockHelper), RecursiveTimedMutex, SharedMutex (lock, try_lock, lock_shared, try_lock_shared, unlock, unlock_shared, '
                 'both helpers), SharedTimedMutex: on return the fiber is the only holder in the requested mode, try / timed success really holds the lock, '
                 'failure only because it was incompatible or the deadline passed, unlock frees and notifies; FiberQueue Wait / timed Wait / NotifyOne, '
-                'ConditionVariable::WaitImpl, Thread::join (returns only after Completed), thread-local proxy keyed by the current fiber; unit tls: every thread-local pointer '
+                'ConditionVariable::WaitImpl, Thread::join (returns only after Completed), thread-local proxy keyed by the current fiber; unit run_loop: the scheduler loop (with nothing runnable the clock jumps to the earliest sleeper so that a timed wait ends; a completed fiber is freed only when its thread object let go); unit tls: every thread-local pointer '
                 'variable gets a key no other variable has whatever the pointee types (constructors of ThreadLocalPtrProxy; the scope of the key counter is read from the text). '
                 'Unit sleep_map: the scheduler\'s sleep map (Sleep, SleepPreemptive, WakeUpNeeded; std::map abstracted for one arbitrary key, ordered iteration never skips it): a passed deadline does not block, a sleeper is in the bucket of exactly its wake-up time, the clock wakes exactly the buckets whose time has come (all sleepers, once), a bucket is erased only when nobody sleeps in it, end() is never dereferenced (finding F14, fixed).',
         'note': 'Cooperative scheduling (no preemption between suspension points) is the model; context switching, the scheduler loop and std containers are '
